@@ -56,6 +56,8 @@ partial def toExpr : SExp → Option Expr
   | .list [.atom "jdone"] => some (.const .justDone)
   | .list [.atom "argv", .atom n] => n.toNat?.map (fun v => .const (.argv v))
   | .list [.atom "sir"] => some (.const .stopIfRequested)
+  | .list [.atom "jfrom", .atom n] => n.toNat?.map (fun v => .const (.justFrom v))
+  | .list [.atom "jvod", .atom n] => n.toNat?.map (fun v => .const (.justVoidOrDone (v != 0)))
   | .list [.atom "leaf", .atom n] => n.toNat?.map Expr.leaf
   | .list [.atom "then", .atom f, c] => do let f ← parseFn f; let c ← toExpr c; pure (.un (.thenF f) c)
   | .list [.atom "uerr", .atom f, c] => do let f ← parseFn f; let c ← toExpr c; pure (.un (.uponError f) c)
@@ -66,11 +68,15 @@ partial def toExpr : SExp → Option Expr
   | .list [.atom "tag", .atom n, c] => do let v ← n.toNat?; let c ← toExpr c; pure (.un (.withTag v) c)
   | .list [.atom "src", c] => do let c ← toExpr c; pure (.un .withSrc c)
   | .list [.atom "era", c] => do let c ← toExpr c; pure (.un .erase c)
+  | .list [.atom "iv", c] => do let c ← toExpr c; pure (.un .intoVariant c)
+  | .list [.atom "dfr", c] => do let c ← toExpr c; pure (.un .deferK c)
+  | .list [.atom "alc", c] => do let c ← toExpr c; pure (.un .allocate c)
   | .list [.atom k, a, b] => do
     let a ← toExpr a; let b ← toExpr b
     let kind ← match k with
       | "lv" => some BinKind.letValue | "le" => some .letError | "ld" => some .letDone
       | "seq" => some .seq | "fin" => some .fin | "wa" => some .whenAll | "sw" => some .stopWhen
+      | "any" => some .whenAny
       | _ => none
     pure (.bin kind a b)
   | _ => none
@@ -124,12 +130,6 @@ def renderOutcome : Outcome → String
 def renderEvent (outs : List Out) (r : Option Outcome) : String :=
   let items := outs.map renderOut ++ (match r with | some o => [renderOutcome o] | none => [])
   if items.isEmpty then "-" else ",".intercalate (sortStr items)
-
-def Op.pending : Op → List Nat
-  | .const _ _ => []
-  | .leaf i ph => if ph = .running then [i] else []
-  | .un _ c _ _ => c.pending
-  | .bin _ a b _ => a.pending ++ b.pending
 
 def specsOf (l : List (Nat × LeafSpec)) (i : Nat) : LeafSpec :=
   match l.lookup i with
